@@ -47,7 +47,7 @@ let fval key (fs : string list) : string =
 
 let cmd_out_of = function
   | "ok" -> XOk | "eof" -> XEof | "eofdisc" -> XEofDisc | "retriable" -> XRetriable | "other" -> XOther | s -> failwith ("cmd outcome " ^ s)
-let dial_out_of (s : string) : dial_out = match s with "ok" -> DOk0 | "fail" -> DFail | "fatal" -> DFatal | s -> failwith ("dial outcome " ^ s)
+let dial_out_of (s : string) : dial_out = match s with "ok" -> DOk0 | "fail" | "dns" | "opdns" | "timeout" | "refused" -> DFail | "fatal" -> DFatal | s -> failwith ("dial outcome " ^ s)
 let conn_out_of = function "ok" -> OOk | "fail" -> OFail | "fatal" -> OFatal | s -> failwith ("connect outcome " ^ s)
 
 (* implementation events -> cev; also the direct (implementation-only) findings *)
